@@ -229,7 +229,7 @@ fn main() {
                 Tamper::SwapChunks { .. } | Tamper::SwapObjects { .. } => done % 7 == 0,
                 _ => false,
             };
-            if samples_taken < 6 && r.failed > 0 && interesting && done % 4 == samples_taken % 4 {
+            if samples_taken < 6 && r.failed > 0 && interesting && scenarios[*i].size >= 16 && done % 4 == samples_taken % 4 {
                 samples_taken += 1;
                 run.sample(json!({
                     "object": scenario_label(&scenarios[*i]),
